@@ -27,54 +27,54 @@ type World struct {
 }
 
 type Job struct {
-	Property string   `json:"property"`
-	Tier     string   `json:"tier"`
-	Seed     uint64   `json:"seed"`
-	First    uint64   `json:"first"`
-	Count    uint64   `json:"count"`
-	Stride   uint64   `json:"stride"`
-	WallS    float64  `json:"wall_s"`
-	Out      string   `json:"out"`
-	Replay   []uint32 `json:"replay,omitempty"`
-	IsReplay bool     `json:"is_replay,omitempty"`
-	SelfTest bool     `json:"selftest,omitempty"`
-	MaxRuns  uint64   `json:"max_runs_per_proc,omitempty"`
-	Known    []string `json:"known,omitempty"` // known finding ids (listed, not fixed)
+	Property string            `json:"property"`
+	Tier     string            `json:"tier"`
+	Seed     uint64            `json:"seed"`
+	First    uint64            `json:"first"`
+	Count    uint64            `json:"count"`
+	Stride   uint64            `json:"stride"`
+	WallS    float64           `json:"wall_s"`
+	Out      string            `json:"out"`
+	Replay   []uint32          `json:"replay,omitempty"`
+	IsReplay bool              `json:"is_replay,omitempty"`
+	SelfTest bool              `json:"selftest,omitempty"`
+	MaxRuns  uint64            `json:"max_runs_per_proc,omitempty"`
+	Known    []string          `json:"known,omitempty"` // known finding ids (listed, not fixed)
 	Params   map[string]string `json:"params,omitempty"`
 }
 
 type ViolationOut struct {
-	Index         uint64    `json:"index"`
-	RunSeed       uint64    `json:"run_seed"`
-	Clause        string    `json:"clause"`
-	Detail        string    `json:"detail"`
-	Step          int       `json:"step"`
-	Finding       string    `json:"finding,omitempty"`
-	Tape          []uint32  `json:"tape"`
-	OrigLen       int       `json:"orig_tape_len"`
-	Deterministic bool      `json:"deterministic"`
-	Trace         []string  `json:"trace"`
+	Index         uint64      `json:"index"`
+	RunSeed       uint64      `json:"run_seed"`
+	Clause        string      `json:"clause"`
+	Detail        string      `json:"detail"`
+	Step          int         `json:"step"`
+	Finding       string      `json:"finding,omitempty"`
+	Tape          []uint32    `json:"tape"`
+	OrigLen       int         `json:"orig_tape_len"`
+	Deterministic bool        `json:"deterministic"`
+	Trace         []string    `json:"trace"`
 	Sample        interface{} `json:"sample,omitempty"`
 }
 
 type Result struct {
-	Property     string            `json:"property"`
-	Runs         uint64            `json:"runs"`
-	NextIndex    uint64            `json:"next_index"`
-	Steps        uint64            `json:"steps"`
-	SimTimeS     float64           `json:"sim_time_s"`
-	WallS        float64           `json:"wall_s"`
-	Faults       map[string]int    `json:"faults"`
-	Probes       map[string]int    `json:"probes"`
-	Nontrivial   []string          `json:"nontrivial"`   // distinct schedule fingerprints of non-trivial runs
-	States       []string          `json:"states"`       // distinct oracle state hashes (capped)
-	Samples      []interface{}     `json:"samples"`
-	Violations   []ViolationOut    `json:"violations"`
-	KnownSeen    map[string]int    `json:"known_seen"`
-	Leaked       uint64            `json:"leaked_runs"`
-	NonDet       int               `json:"nondeterministic_replays"`
-	TraceHashes  map[string]string `json:"trace_hashes,omitempty"`
-	Done         bool              `json:"done"`
+	Property    string            `json:"property"`
+	Runs        uint64            `json:"runs"`
+	NextIndex   uint64            `json:"next_index"`
+	Steps       uint64            `json:"steps"`
+	SimTimeS    float64           `json:"sim_time_s"`
+	WallS       float64           `json:"wall_s"`
+	Faults      map[string]int    `json:"faults"`
+	Probes      map[string]int    `json:"probes"`
+	Nontrivial  []string          `json:"nontrivial"` // distinct schedule fingerprints of non-trivial runs
+	States      []string          `json:"states"`     // distinct oracle state hashes (capped)
+	Samples     []interface{}     `json:"samples"`
+	Violations  []ViolationOut    `json:"violations"`
+	KnownSeen   map[string]int    `json:"known_seen"`
+	Leaked      uint64            `json:"leaked_runs"`
+	NonDet      int               `json:"nondeterministic_replays"`
+	TraceHashes map[string]string `json:"trace_hashes,omitempty"`
+	Done        bool              `json:"done"`
 }
 
 // Params of the current job, readable by worlds (e.g. forced configuration).
